@@ -43,10 +43,15 @@ static inline int verif_sql_kind(const char *sql) {
   if (sql[0] == 'C' && sql[7] == 'U') return 6;
   if ((sql[0] == 'P' || sql[0] == 'p') && (sql[7] == 'j' || sql[7] == 'J' || sql[7] == 's' || sql[7] == 'S')) return -1;
   return 0; }
+#define HAS4(s, o, a, b, c, d) ((s)[o] == a && (s)[(o) + 1] == b && (s)[(o) + 2] == c && (s)[(o) + 3] == d)
 static inline int sqlite3_exec(struct sqlite3 *db, const char *sql, void *cb, void *arg, char **err) {
   __CPROVER_assert(db != 0 && db == g_handle, "[P:C03] statements are executed on the open connection (not on a closed or null one)");
   int kind = verif_sql_kind(sql);
   __CPROVER_assert(kind != -1, "[P:C04] opening the database never switches journaling or synchronous writes off (no PRAGMA journal_mode / synchronous)");
+  if (kind == 4) {
+    __CPROVER_assert(sql[KEY_TYPE_OFF - 4] == 'k' && sql[KEY_TYPE_OFF - 3] == 'e' && sql[KEY_TYPE_OFF - 2] == 'y' && sql[KEY_TYPE_OFF - 1] == ' ', "extraction: offset of the key column type in the CREATE TABLE key_names literal");
+    __CPROVER_assert(KEY_TYPE_KEEPS_BYTES(sql), "[P:C03] key_names.key stores key bytes unchanged: its declared type has TEXT or BLOB affinity (a type such as STRING has NUMERIC affinity: numeric-looking keys are converted and collide)");
+  }
   int rc = nondet_int();
   if (rc != 0) { *err = (char *)"e"; g_schema_failed = 1; return rc; }
   *err = 0;
